@@ -153,21 +153,31 @@ func predContract(c Case) (r Result) {
 			r.Got = fmt.Sprint(p)
 			return
 		}
+		// behaviour is compared only where the specification determines it (expressions
+		// that use the unspecified order of object members may legitimately differ
+		// between two evaluations, even in whether they fail)
+		n, st, perr := ref.ParseText(expr)
+		if perr != nil || st != ref.LexOK {
+			continue
+		}
+		ev := &ref.Ev{}
+		want, werr := ev.Eval(n, ref.DeepCopy(d))
+		if ev.Ambiguous {
+			continue
+		}
 		if (e1 != nil) != (e2 != nil) {
 			r.Violation = "MustCompile's expression behaves differently from Compile's"
 			return
 		}
-		if e1 == nil {
-			n, st, perr := ref.ParseText(expr)
-			if perr == nil && st == ref.LexOK {
-				ev := &ref.Ev{}
-				want, werr := ev.Eval(n, ref.DeepCopy(d))
-				if !ev.Ambiguous && werr == nil && (!ref.Matches(v1, want) || !ref.Matches(v2, want)) {
-					r.Violation = "compiled expression returns a different value than the specification defines"
-					r.Expected, r.Got = show(want), show(v1)+" / "+show(v2)
-					return
-				}
-			}
+		if (werr != nil) != (e1 != nil) {
+			r.Violation = "compiled expression disagrees with the specification about failure"
+			r.Expected, r.Got = fmt.Sprint(werr), fmt.Sprint(e1)
+			return
+		}
+		if e1 == nil && (!ref.Matches(v1, want) || !ref.Matches(v2, want)) {
+			r.Violation = "compiled expression returns a different value than the specification defines"
+			r.Expected, r.Got = show(want), show(v1)+" / "+show(v2)
+			return
 		}
 	}
 	return
